@@ -29,12 +29,11 @@ impl ClusterCreator {
     pub fn is_full(&self, size: Size) -> bool {
         #[cfg(jubako_verif)]
         {
-            // Tunable twin of the rule below, used only when a simulator shrinks the limits (or widens
-            // the blob limit to the 4096 blobs the format allows).
+            // Tunable twin of the rule below, used only when a simulator shrinks the limits.
             let max_blobs = crate::verif::knob("cluster_max_blobs", MAX_BLOBS_PER_CLUSTER);
             let max_size = crate::verif::knob("cluster_max_size", CLUSTER_SIZE.into_u64() as usize);
             if max_blobs != MAX_BLOBS_PER_CLUSTER || max_size as u64 != CLUSTER_SIZE.into_u64() {
-                if self.offsets.len() >= max_blobs.clamp(1, MAX_BLOBS_PER_CLUSTER + 1) {
+                if self.offsets.len() >= max_blobs.clamp(1, MAX_BLOBS_PER_CLUSTER) {
                     return true;
                 }
                 return self.compressed
